@@ -41,6 +41,11 @@ type Act struct {
 	Raw  string `json:"raw,omitempty"` // extra raw text inserted into the action (comments, braces); no $ inside
 	// NoAssign: the action never assigns $$ (the lhs keeps the fresh, zero value the parser starts a reduction with)
 	NoAssign bool `json:"noassign,omitempty"`
+	// Plain: the action text depends only on the positions referenced and on whether a value is a
+	// string or an int - not on the rule number and not on the tags; no reduction log is written.
+	// Rules with the same shape then have byte-identical action text although their symbols use
+	// different union fields (a generator must not key anything on the action text).
+	Plain bool `json:"plain,omitempty"`
 }
 
 // Rule is one production.
@@ -314,6 +319,33 @@ func (g *Grammar) EvalRule(k int, kids []Value) Value {
 	if ltag == "" || r.Act.NoAssign {
 		return Value{}
 	}
+	if r.Act.Plain {
+		if TagIsInt(ltag) {
+			v := 7
+			for _, p := range r.Act.Refs {
+				kv := kids[p-1]
+				x := kv.N
+				if !TagIsInt(g.SymTag(r.Rhs[p-1])) {
+					x = StrHash(kv.S)
+				}
+				v += (2*p + 1) * x
+			}
+			return Value{N: v % 10007}
+		}
+		var sb strings.Builder
+		sb.WriteString("(")
+		for _, p := range r.Act.Refs {
+			kv := kids[p-1]
+			sb.WriteString(" ")
+			if TagIsInt(g.SymTag(r.Rhs[p-1])) {
+				sb.WriteString(strconv.Itoa(kv.N))
+			} else {
+				sb.WriteString(kv.S)
+			}
+		}
+		sb.WriteString(")")
+		return Value{S: sb.String()}
+	}
 	if TagIsInt(ltag) {
 		v := r.Act.C0
 		for i, p := range r.Act.Refs {
@@ -345,6 +377,28 @@ func (g *Grammar) EvalRule(k int, kids []Value) Value {
 func (g *Grammar) ActionText(k int) string {
 	r := g.Rules[k]
 	ltag := g.NTs[r.Lhs].Tag
+	if r.Act.Plain && ltag != "" {
+		if TagIsInt(ltag) {
+			e := "7"
+			for _, p := range r.Act.Refs {
+				x := fmt.Sprintf("$%d", p)
+				if !TagIsInt(g.SymTag(r.Rhs[p-1])) {
+					x = "verifL(" + x + ")"
+				}
+				e += fmt.Sprintf(" + %d*%s", 2*p+1, x)
+			}
+			return "$$ = (" + e + ") % 10007"
+		}
+		e := "\"(\""
+		for _, p := range r.Act.Refs {
+			x := fmt.Sprintf("$%d", p)
+			if TagIsInt(g.SymTag(r.Rhs[p-1])) {
+				x = "verifI(" + x + ")"
+			}
+			e += " + \" \" + " + x
+		}
+		return "$$ = " + e + " + \")\""
+	}
 	s := fmt.Sprintf("verifR(%d)", k)
 	if r.Act.Raw != "" {
 		s += "; " + r.Act.Raw
